@@ -41,6 +41,12 @@ func main() {
 	switch fam {
 	case "coll":
 		err = famColl(w, *seed, *n, *labels, *mode, *replay)
+	case "index":
+		if *mode == "api" {
+			err = famIndexAPI(w, *seed, *n)
+		} else {
+			err = famIndex(w, *seed, *n, *mode)
+		}
 	default:
 		err = fmt.Errorf("unknown family %q", fam)
 	}
